@@ -391,6 +391,11 @@ pub fn inputs(ctx: &mut Ctx, tag: u64, f: &mut dyn FnMut(&mut Ctx, &str, u32)) {
         }
         ctx.count_n("focus-bases", focus.len().min(40) as u64);
     }
+    // very long single tokens (comment, blank run, word, number) in front of ordinary content
+    for long in [format!("[- {} -] a @salt{{1%g}} b\n", "x".repeat(65_531)), format!("-- {}\nServe with @rice{{}} and #chopsticks.\n", "y".repeat(70_000)),
+                 format!("a{}b @x{{}} c\n", " ".repeat(66_000)), format!("{} @x{{}} tail\n", "w".repeat(66_000)), format!(">> k: v\n\n[- {} -]\n= S\n\nText é @y{{2%kg}}.\n", "é".repeat(33_000))] {
+        f(ctx, &long, 0); f(ctx, &long, 0xEEA);
+    }
     // exhaustive short strings over the token alphabet
     let maxlen = if ctx.thorough { 3 } else { 2 };
     let n = gen::ALPHABET.len();
